@@ -125,8 +125,10 @@ static void run_sequence(const std::vector<int>& ops) {
             ++g_checks;
             std::shared_ptr<Obj> p = unwrap_shared_ptr<Obj>(h.first, "ptr_Obj");
             if (p.get() != raw[h.second]) fail("handle|unwrap_shared_ptr-wrong-object", "sequence " + seq);
-            // the same handle as MATLAB passes it to a gateway: in a temporary argument header whose address is
-            // reused from call to call
+          }
+          // the same handles as MATLAB passes them to a gateway: one after the other in a temporary argument header
+          // whose address is reused from call to call
+          for (auto& h : handles) {
             static mxArray* header = new mxArray();
             *header = *h.first;
             ++g_checks;
